@@ -17,6 +17,12 @@ pub fn general_case(rng: &mut Rng) -> Option<Case> {
             return Some(c);
         }
     }
+    // a few compositions of table operations (join / sort / permutation) with arithmetic on their columns
+    if rng.chance(1, 16) {
+        if let Some(c) = crate::gen_tables::composed_table_case(rng) {
+            return Some(c);
+        }
+    }
     let cfg = GenCfg::swarm(rng);
     gen_case(&cfg, rng)
 }
